@@ -429,6 +429,12 @@ class Queries:
             bad.append(z3.And(z3.InRe(w, self.z(j)), z3.Length(w) > 1))
         return self._check(name, [z3.Contains(w, z3.StringVal(ch)), z3.Or(*bad)], w)
 
+    def only_rule_with(self, name, ch, allowed):
+        """no token rule other than `allowed` matches a string containing ch"""
+        w = z3.String("w")
+        bad = [z3.InRe(w, self.z(j)) for j in self.m.token_rules if self.m.rule_names[j] != allowed]
+        return self._check(name, [z3.Contains(w, z3.StringVal(ch)), z3.Or(*bad)], w)
+
     def stable(self, name, pre, cls, post):
         """for every w in cls (regex AST): lex(pre + w + post) == lex(pre) ++ [w] ++ lex(post),
         given that w standalone lexes as one token (class_included, checked separately).
